@@ -67,6 +67,8 @@ type ArchiveDecoder struct {
 	rooted bool
 	// rootNotDir is set if the root entry of the archive is not a directory
 	rootNotDir bool
+	// depth is the number of directories that were entered and not closed yet
+	depth int
 }
 
 // validFilename returns true if name can be used as the name of an entry in
@@ -164,8 +166,17 @@ loop:
 				a.last = c
 				break loop
 			}
+			if a.depth == 0 {
+				return nil, InvalidFormat{"goodbye without directory in archive"}
+			}
+			a.depth--
 			a.dir = filepath.Dir(a.dir)
 		case nil:
+			// End of the stream. It's only the end of the archive if no entry is
+			// left unfinished and every directory was closed with a goodbye element.
+			if entry != nil || name != "" || a.depth != 0 {
+				return nil, InvalidFormat{"archive ends prematurely"}
+			}
 			return nil, nil
 
 		default:
@@ -192,6 +203,7 @@ loop:
 	// If it doesn't have a payload or is a device/symlink, it must be a directory
 	if payload == nil && device == nil && symlink == nil {
 		a.dir = path.Join(a.dir, name)
+		a.depth++
 		return NodeDirectory{
 			Name:   a.dir,
 			UID:    entry.UID,
